@@ -47,6 +47,9 @@ pub struct RawGen {
     pub reach: Vec<&'static str>,
     pub term_lines: usize,
     shadow_groups: usize,
+    /// 0: `\time` is the built-in; 1: globally redefined as a macro (the built-in saved under
+    /// another name); 2: inside a group that has locally put the built-in back under its own name.
+    unshadow: u8,
 }
 
 pub const RAW_FAMILIES: [&str; 22] = [
@@ -117,6 +120,7 @@ impl RawGen {
             reach: vec![],
             term_lines: 0,
             shadow_groups: 0,
+            unshadow: 0,
         }
     }
 
@@ -580,6 +584,30 @@ impl RawGen {
                     ][id as usize % 12]
                     .to_string(),
                 )
+            }
+            "shadow_builtin" if rng.chance(1, 3) => {
+                // The inverse shape: the built-in's name is globally a macro and a group puts the
+                // built-in back under its own name, locally; closed on a later line.
+                match self.unshadow {
+                    0 => {
+                        self.unshadow = 1;
+                        self.reach.push("builtin_name_globally_redefined");
+                        Some("\\global\\let\\xot=\\time \\gdef\\time{GT.}\\time;".to_string())
+                    }
+                    1 => {
+                        if rng.chance(1, 2) {
+                            self.unshadow = 2;
+                            self.reach.push("builtin_restored_locally_under_its_own_name");
+                            Some("{\\let\\time=\\xot \\the\\time;".to_string())
+                        } else {
+                            Some("\\time;\\the\\xot;".to_string())
+                        }
+                    }
+                    _ => {
+                        self.unshadow = 1;
+                        Some("\\the\\time;}\\time;".to_string())
+                    }
+                }
             }
             "shadow_builtin" => {
                 // A built-in name redefined locally; the group is closed on a later line, possibly
